@@ -163,6 +163,39 @@ Qed.
 
 End WithEnv.
 
+(* ---- start-line stages ---- *)
+Lemma mono_skip_empty_lines f : mono (skip_empty_lines f).
+Proof. unfold skip_empty_lines. induction f as [|f IH]; cbn [skip_empty_lines_f]; unfold bump; mono_auto. Qed.
+Lemma mono_skip_spaces f : mono (skip_spaces f).
+Proof. unfold skip_spaces. induction f as [|f IH]; cbn [skip_spaces_f]; unfold bump; mono_auto. Qed.
+Lemma mono_parse_version : mono parse_version.
+Proof. unfold parse_version. mono_auto. Qed.
+Lemma mono_parse_code : mono parse_code.
+Proof. unfold parse_code. mono_auto. Qed.
+Lemma mono_parse_reason f : mono (parse_reason f).
+Proof.
+  unfold parse_reason. generalize false. induction f as [|f IH]; intros seen; cbn [parse_reason_f]; mono_auto.
+  apply IH.
+Qed.
+Lemma mono_newline : mono newline.
+Proof. unfold newline. mono_auto. Qed.
+Lemma mono_space e : mono (space e).
+Proof. unfold space. mono_auto. Qed.
+
+Section StartEnv.
+Variable E : env.
+Variable fuel : nat.
+Lemma mono_parse_token_f f : mono (parse_token_f E f).
+Proof. induction f as [|f IH]; cbn [parse_token_f]; mono_auto. Qed.
+Lemma mono_parse_token : mono (parse_token E fuel).
+Proof. unfold parse_token. mono_auto. apply mono_parse_token_f. Qed.
+Lemma mono_parse_method : mono (parse_method E fuel).
+Proof. unfold parse_method. mono_auto; first [apply mono_parse_token | apply mono_parse_token_f]. Qed.
+Hypothesis fwd_uri : forall f, mono (s_uri E f).
+Lemma mono_parse_uri : mono (parse_uri E fuel).
+Proof. unfold parse_uri. mono_auto; try apply fwd_uri; mono_auto. Qed.
+End StartEnv.
+
 (* ---- the scanner loop shells (Scan.v) move forward whatever the kernel returns ---- *)
 Lemma mono_swar_loop f W kernel cls : mono (swar_loop f W kernel cls).
 Proof. induction f as [|f IH]; cbn [swar_loop]; mono_auto. Qed.
